@@ -6,7 +6,10 @@
 cd "$(dirname "$0")/.."
 rc=0
 for m in ${@:-$(ls units/*/mutations.py | xargs -n1 dirname | xargs -n1 basename)}; do
+  wt=$(grep -o "/tmp/wt_[a-z_]*" units/$m/mutations.py | head -1)   # scripts written by sub-agents expect their worktree to exist
+  [ -n "$wt" ] && [ ! -d "$wt" ] && git -C /repo worktree add --detach "$wt" HEAD >/dev/null 2>&1
   out=$(python3 units/$m/mutations.py 2>&1); r=$?
+  [ -n "$wt" ] && [ -d "$wt" ] && git -C /repo worktree remove --force "$wt" >/dev/null 2>&1
   echo "== $m: exit=$r  $(echo "$out" | tail -1)"
   [ $r -ne 0 ] && { rc=1; echo "$out" | grep -E "^BAD|ANCHOR|COMPILE" | head; }
 done
